@@ -446,7 +446,7 @@ class BasicContiguousVector<cntgs::Options<Option...>, Parameter...>
         {
             for (auto i = to; from != size(); ++i, (void)++from)
             {
-                emplace_at(i, (*this)[from], ListTraits::make_index_sequence());
+                locator_->relocate_at(i, memory_begin(), (*this)[from]);
             }
         }
     }
